@@ -122,7 +122,7 @@ pub fn run(ctx: &mut Ctx, replay: Option<&[String]>) {
     let d2 = "3 2\n1 1\n1 1 1\n1 1\n1\n2\n3\n1\n2\n";
     ctx.emit(&format!("c08 p {}", enc_text(d2)), &parse_res(d2), true, &["corpus-row-index-out-of-range"]);
     let maxdim = ctx.scale(10, 24);
-    for k in 0..ctx.scale(1500, 30000) {
+    for k in 0..ctx.scale(1500, 200000) {
         let h = gen_sparse(&mut rng, if k % 10 == 0 { maxdim } else { 6 });
         let entries = h.iter_all().count();
         let tag = if entries == 0 { "write-zero-matrix" } else { "write-matrix" };
@@ -142,7 +142,7 @@ pub fn run(ctx: &mut Ctx, replay: Option<&[String]>) {
             ctx.emit(&format!("c08 p {}", enc_text(&m)), &o, true, &[tag]);
         }
     }
-    for _ in 0..ctx.scale(1500, 30000) {
+    for _ in 0..ctx.scale(1500, 200000) {
         let s = soup(&mut rng);
         let o = parse_res(&s);
         let tag = if o.starts_with("ok") { "parse-soup-ok" } else if o == "err" { "parse-soup-err" } else { "parse-soup-panic" };
